@@ -133,7 +133,11 @@ def run_case(case):
     where = f"{shown}"
     CUT["below"] = cfg.get("cut_below")
     counters["runs_with_zero_likelihood_region"] += int(cfg.get("cut_below") is not None)
-    out = boundary.execute(cfg)
+    try:
+        out = boundary.execute(cfg)
+    except boundary.DegenerateWorkload as exc:
+        counters["degenerate_population_not_judged"] += 1
+        return {"viol": [], "counters": dict(counters), "nontrivial": [], "sample": {"where": shown, "not_judged": str(exc)}}
     t = out["target"]
     f64 = twin64(out["flow"])
     smc = cfg["sampler"].endswith("smc")
